@@ -4,7 +4,10 @@
 
 package mux
 
-import "github.com/issue9/mux/v9/internal/syntax"
+import (
+	"github.com/issue9/mux/v9/internal/syntax"
+	"github.com/issue9/mux/v9/internal/tree"
+)
 
 // 以下内容仅用于验证工具，通过 verif 标签启用，不影响正常的编译结果。
 
@@ -50,3 +53,6 @@ func VerifMatch(rules map[string]InterceptorFunc, val, path string) (ok bool, pa
 
 // VerifDump 输出路由树的结构
 func (r *Router[T]) VerifDump() string { return r.tree.VerifDump() }
+
+// VerifMethodEntity 返回方法集合 index（各个方法在 [Methods] 中的位置为其位）对应的方法列表及 Allow 报头
+func VerifMethodEntity(index int) ([]string, string) { return tree.VerifMethodEntity(index) }
